@@ -139,12 +139,18 @@ def entropy(src: Entropy):
         yield src
 
 
-def make_cache(rk: gkdi.RootKey):
-    """dpapi_ng.KeyCache with the reference root key loaded through the public API."""
+def make_cache(rk: gkdi.RootKey, minimal: bool = False):
+    """dpapi_ng.KeyCache with the reference root key loaded through the public API.
+    minimal: only key and id are given, everything else is left to load_key's documented defaults (SP800_108_CTR_HMAC / SHA512,
+    DH with the RFC 5114 2048/256 group, 512 / 2048 bit key lengths) - only meaningful for a root key that has exactly those."""
     import dpapi_ng
 
     cache = dpapi_ng.KeyCache()
-    load_root(cache, rk)
+    if minimal:
+        assert rk.hash_name == "SHA512" and rk.secret_alg == "DH" and not rk.secret_params and (rk.priv_len, rk.pub_len) == (512, 2048)
+        cache.load_key(rk.key, rk.rkid)
+    else:
+        load_root(cache, rk)
     return cache
 
 
